@@ -42,6 +42,8 @@ type Mode struct {
 	Required []string
 	// Serial forbids running cases in parallel.
 	Serial bool
+	// Atomic: a case is one indivisible scenario (not a list of steps); it counts as non-trivial.
+	Atomic bool
 }
 
 var modes = map[string]*Mode{}
@@ -371,10 +373,10 @@ func runProp(prop, modeName, tier string, seed uint64, outPath, replayDir, known
 						sum.Cov[k] += n
 					}
 					h := strings.Join(inputLines(t), "\n")
-					if len(keep) > 1 {
+					if len(keep) > 1 || mode.Atomic {
 						distinct[h] = true
 					}
-					if len(sum.Samples) < 3 && len(keep) > 3 {
+					if len(sum.Samples) < 3 && (len(keep) > 3 || mode.Atomic) {
 						sum.Samples = append(sum.Samples, strings.Join(firstN(inputLines(t), 12), " ;; "))
 					}
 					mu.Unlock()
@@ -396,7 +398,7 @@ func runProp(prop, modeName, tier string, seed uint64, outPath, replayDir, known
 					shrunk[sig]++
 					doShrink := shrunk[sig] <= 2
 					mu.Unlock()
-					if keepOverride == nil && doShrink {
+					if keepOverride == nil && doShrink && !mode.Atomic {
 						pred := func(k []int) bool {
 							t2, err := j.spec.Run(k)
 							if err != nil {
